@@ -178,7 +178,7 @@ def classify_error(text):
     return "abort"
 
 
-def run_batch(prog, job, idxs, timeout):
+def run_batch(prog, job, idxs, timeout, attempt=0):
     """run the cases idxs of job in one smpirun; fill job.results; return the list of indices left undone (after the
     first case that did not complete on every rank, which is recorded as errored)."""
     d = os.path.join(fw.B, "c29")
@@ -219,8 +219,16 @@ def run_batch(prog, job, idxs, timeout):
             job.results.setdefault("_tail", []).append((rc, (se + so)[-600:]))
         return []
     i = idxs[failed_at]
+    if attempt < 2 and classify_error((se + so) + "\nexit code %d" % rc) in ("abort", "timeout"):
+        # no recognisable message (e.g. the loader could not map libsimgrid while it was being relinked, or the machine
+        # is overloaded): infrastructure trouble is retried before anything is blamed on the algorithm
+        time.sleep(3 + 5 * attempt)
+        for k in list(job.results):
+            if k in idxs:
+                del job.results[k]
+        return run_batch(prog, job, idxs, timeout, attempt + 1)
     text = "\n".join(l for l in (se + "\n" + so).split("\n")
-                     if l.strip() and not l.startswith(("O ", "D ", "Execution failed", "[0.000000] [smpi/INFO]")) and "smpimain" not in l)
+                     if l.strip() and not l.startswith(("O ", "D ", "Execution failed", "[0.000000] [smpi/INFO]")) and "--cfg=smpi/privatization" not in l)
     text += "\nexit code %d" % rc
     job.results[i] = {"ranks": got.get(i, {}), "error": classify_error(text), "rc": rc,
                       "message": " | ".join(x.strip() for x in text.strip().split("\n")[-12:] if x.strip())[-900:]}
